@@ -1006,7 +1006,10 @@ class Choose:
         others = []
         for _ in range(nch - 1):
             try:
-                others.append(pool.pick(lambda n: n.kind == a.kind and n.shape == a.shape))
+                if pool.rng.random() < .5:
+                    raise Reject
+                used = {a.i} | {q.i for q in others}
+                others.append(pool.pick(lambda n: n.kind == a.kind and n.shape == a.shape and (n.i not in used or pool.rng.random() < .15)))
             except Reject:
                 others.append(pool.view(Arg.gen(pool, want_kind=a.kind, shape=a.shape)))
         ii = Arg.gen(pool, want_kind='i', shape=a.shape)
@@ -1645,6 +1648,44 @@ def scatterchain(rng, opnames, inloop=False):
             raise Reject
         cur = pool.view(pool.add('loop_sum', [cur.i, idx], dict(name='i0', length=length), cur.shape, cur.kind))
     return prune(dict(nodes=pool.nodes, outputs=[cur.i]))
+
+
+def _gen_kind(pool, name, cur):
+    forced = {}
+    if ':' in name:
+        name, sub = name.split(':', 1)
+        key = {'unary': 'f', 'binary': 'f', 'take': 'style', 'inflate': 'style', 'powconst': 'e'}[name]
+        forced = {key: float(sub) if name == 'powconst' else sub}
+    for attempt in range(6):
+        try:
+            return pool.view(OPS[name].gen(pool, a=cur, **forced))
+        except Reject:
+            continue
+        except TypeError:
+            raise Reject
+    raise Reject
+
+
+def siblings(rng, k1, k2, f, shared=None):
+    """Systematic mixer for binary rewrite rules between two results of (the same or different) operations:
+    f(K1(x), K2(y)), x and y independent arguments of one shape (or the same argument when `shared`), the two operations with
+    independently drawn parameters (different selectors, index maps, axes, ...).  Raises Reject if the shapes do not match."""
+    for attempt in range(8):
+        pool = Pool(rng)
+        kind = str(rng.choice(list('if'), p=[.25, .75]))
+        shape = pool.shape(ndim=int(rng.integers(1, 4)))
+        a = pool.view(Arg.gen(pool, want_kind=kind, shape=shape))
+        b = a if (shared if shared is not None else rng.random() < .3) else pool.view(Arg.gen(pool, want_kind=kind, shape=shape))
+        try:
+            x = _gen_kind(pool, k1, a)
+            y = _gen_kind(pool, k2, b)
+            if x.kind != y.kind or x.shape != y.shape:
+                continue
+            out = Binary.gen(pool, a=x, b=y, f=f)
+        except Reject:
+            continue
+        return prune(dict(nodes=pool.nodes, outputs=[out]))
+    raise Reject
 
 
 def chain_kinds():
